@@ -10,18 +10,13 @@ Open Scope N_scope.
    exactly the number of bytes Encode produced.
    Guards: wf (type codes fit their denotation; interface alternatives carry the code they are registered under;
    sequence elements are not zero-size), good (map keys pairwise different; sequence elements not empty on the wire),
-   total encoding shorter than 2^32 bytes (the optional marker is a uint32).
-   PARTIAL in one respect only: no_must (no must-occur rule on a sequence); see notes/c01bin.md. *)
-Theorem C01_roundtrip_partial : forall s, wf s -> no_must s -> forall val d tot v b rest,
+   total encoding shorter than 2^32 bytes (the optional marker is a uint32). *)
+Theorem C01_roundtrip : forall s, wf s -> forall val d tot v b rest,
   good val s v -> encode val d s v = Ok b -> N.of_nat (length b) < W32 ->
   decode val tot s (b ++ rest) = Ok (canon val s v, length b).
 Proof. exact roundtrip. Qed.
 
-Definition C01_roundtrip_full_statement : Prop := forall s, wf s -> forall val d tot v b rest,
-  good val s v -> encode val d s v = Ok b -> N.of_nat (length b) < W32 ->
-  decode val tot s (b ++ rest) = Ok (canon val s v, length b).
-
-Theorem C01_roundtrip_api_partial : forall s, wf s -> no_must s -> forall val v b,
+Theorem C01_roundtrip_api : forall s, wf s -> forall val v b,
   good val s v -> Encode val s v = Ok b -> N.of_nat (length b) < W32 ->
   Decode val s b = Ok (canon val s v, length b).
 Proof. exact Roundtrip. Qed.
@@ -38,7 +33,7 @@ Proof. exact encode_sorted_slice_perm. Qed.
 
 (* non-vacuity of the guards, on a schema with a map, an optional, an auto-sorted slice and an interface *)
 Example C01_roundtrip_nonvacuous :
-  wf ex_schema /\ no_must ex_schema /\ good true ex_schema ex_value /\
+  wf ex_schema /\ good true ex_schema ex_value /\
   exists b, Encode true ex_schema ex_value = Ok b /\ N.of_nat (length b) < W32 /\
             Decode true ex_schema b = Ok (canon true ex_schema ex_value, length b) /\ canon true ex_schema ex_value <> ex_value.
 Proof. exact roundtrip_nonvacuous. Qed.
@@ -50,8 +45,8 @@ Theorem C01_refuted_optional_zero_size :
   Encode true s v = Ok [0; 0; 0; 0] /\ Decode true s [0; 0; 0; 0] = Ok (VL [VNil], 4%nat) /\ VL [VNil] <> v.
 Proof. exact refuted_optional_zero_size. Qed.
 
-Print Assumptions C01_roundtrip_partial.
-Print Assumptions C01_roundtrip_api_partial.
+Print Assumptions C01_roundtrip.
+Print Assumptions C01_roundtrip_api.
 Print Assumptions C01_deterministic.
 Print Assumptions C01_deterministic_sorted_slice.
 Print Assumptions C01_refuted_optional_zero_size.
